@@ -171,8 +171,20 @@ def observe(case, a, deadline):
     """one construction under the global seed a['g']; returns (kind of event, selection, note)"""
     import numpy as np
     import torch
-    ds = make_dataset(case["cls"], case["C"], case["getall"], dim1=case.get("dim1", False))
-    pos_of = {1000 + 7 * j: j for j in range(case["n"])}
+    perm = case.get("perm")
+    if perm:
+        # the wrapper under test sits on top of a full-length permutation layer: position j of the PRESENTED dataset
+        # (class case["cls"][j]) is sample perm[j] of the root dataset
+        import kappadata.wrappers.dataset_wrappers as W
+        base_cls = [0] * case["n"]
+        for j, pj in enumerate(perm):
+            base_cls[pj] = case["cls"][j]
+        root = make_dataset(base_cls, case["C"], case["getall"], dim1=case.get("dim1", False))
+        ds = W.SubsetWrapper(root, indices=list(perm))
+        pos_of = {1000 + 7 * pj: j for j, pj in enumerate(perm)}
+    else:
+        ds = make_dataset(case["cls"], case["C"], case["getall"], dim1=case.get("dim1", False))
+        pos_of = {1000 + 7 * j: j for j in range(case["n"])}
     np.random.seed(a["g"])
     torch.default_generator.manual_seed(a["g"])  # CPU generator only: torch.manual_seed queues lazy device calls
     random.seed(a["g"])
@@ -428,6 +440,48 @@ def partition_grid(kind, max_n, den):
                     yield C, cls, chain_events(kind, n, cuts, flag, fn, ln, den)
 
 
+def float_hard_points(max_n=400, dens=(100, 10, 1000, 3, 7, 12, 25)):
+    """(n, k, den) with k/den * n mathematically an integer or close to one but int() of the float product off the
+    exact floor: the split points where roundings of the same bound can disagree"""
+    out = []
+    for den in dens:
+        for n in range(1, max_n + 1):
+            for k in range(1, den):
+                if int(k / den * n) != (k * n) // den:
+                    out.append((n, k, den))
+    return out
+
+
+_HARD = None
+
+
+def inexact_chain(r, kind):
+    """a chain of complementary percent ranges with non-dyadic split points (C, cls, events)"""
+    global _HARD
+    if _HARD is None:
+        _HARD = float_hard_points()
+    if r.random() < 0.6 and _HARD:
+        n, k, den = r.choice(_HARD)
+        more = [c for (m, c, d) in _HARD if m == n and d == den]
+        cuts = sorted({k} | set(r.sample(more, min(len(more), r.randint(0, 2)))) | set(
+            r.randint(0, den) for _ in range(r.randint(0, 1))))
+    else:
+        den = r.choice([100, 10, 1000, 3, 7, 12, 25, 9])
+        n = r.randint(1, 300)
+        cuts = sorted(r.randint(0, den) for _ in range(r.choice([1, 2, 3])))
+    if kind == "classwise_pct":
+        # the hard size is one class's count; other classes get other sizes
+        C = r.randint(1, 3)
+        cnt = [n] + [r.randint(0, 120) for _ in range(C - 1)]
+        r.shuffle(cnt)
+        cls = [c for c in range(C) for _ in range(cnt[c])]
+        r.shuffle(cls)
+    else:
+        C, cls = 1, [0] * n
+    fn, ln = r.random() < 0.5, r.random() < 0.5
+    return C, cls, chain_events(kind, len(cls), cuts, r.random() < 0.5, fn, ln, den)
+
+
 def rand_layout(r, big):
     n = r.randint(2, 300 if big else 40)
     C = r.randint(1, 10)
@@ -461,6 +515,16 @@ def rand_case(r, kind, big):
     C, cls = rand_layout(r, big)
     n = len(cls)
     den = r.choice([8, 16, 64])
+    if kind == "filter" and r.random() < 0.3:
+        # a small dataset in a large, sparsely used label space with a long class list
+        C = r.randint(300, 4000)
+        n = r.randint(4, 60)
+        pool = r.sample(range(C), max(2, n // 3))
+        cls = [r.choice(pool) for _ in range(n)]
+        k = r.randint(12, 80)
+        cs = list(set(r.sample(pool, r.randint(0, len(pool))) + r.sample(range(C), k)))
+        r.shuffle(cs)
+        return C, cls, E(mode=r.choice(["valid", "invalid"]), cs=cs, via="ids"), "same"
     if kind == "filter":
         if r.random() < 0.3:
             cls = [c if r.random() > 0.1 else -1 for c in cls]
@@ -523,7 +587,7 @@ def rand_case(r, kind, big):
     raise ValueError(kind)
 
 
-def make_case(cid, kind, C, cls, args, rel, r, gseeds):
+def make_case(cid, kind, C, cls, args, rel, r, gseeds, inexact=False, stack=0.0):
     if rel == "same":
         gs = [gseeds[0], gseeds[1]]
         evs = [dict(args, g=g) for g in gs]
@@ -537,8 +601,13 @@ def make_case(cid, kind, C, cls, args, rel, r, gseeds):
     if C == 1:
         # a dataset announcing the class shape (1,) IS a binary dataset for the library (class 1 may be absent)
         C, dim1 = 2, True
+    perm = None
+    if len(cls) >= 2 and r.random() < stack:
+        perm = list(range(len(cls)))
+        while perm == sorted(perm):
+            r.shuffle(perm)
     return dict(id=cid, kind=kind, rel=rel, n=len(cls), C=C, cls=list(cls), getall=bool(r.random() < 0.5), dim1=dim1,
-                ev=evs)
+                ev=evs, inexact=bool(inexact), perm=perm)
 
 
 def build_cases(tier, r):
@@ -547,8 +616,9 @@ def build_cases(tier, r):
     cap = 450 if quick else 10000           # per kind, sampled from the exhaustive grid when it is larger
     pcap = 160 if quick else 4000
     n_rand = 16 if quick else 160           # per kind
+    n_inexact = 30 if quick else 400        # per percent kind: non-dyadic split points (float-rounded bounds)
     cases = []
-    stats = dict(grid_total={}, grid_used={}, partition_used={}, random={})
+    stats = dict(grid_total={}, grid_used={}, partition_used={}, random={}, inexact_partition={})
 
     def gseeds():
         a = r.randint(1, 10 ** 6)
@@ -562,7 +632,7 @@ def build_cases(tier, r):
             g = g[:cap]
         stats["grid_used"][kind] = len(g)
         for C, cls, a, rel in g:
-            cases.append(make_case(len(cases) + 1, kind, C, cls, a, rel, r, gseeds()))
+            cases.append(make_case(len(cases) + 1, kind, C, cls, a, rel, r, gseeds(), stack=0.15))
         if kind in ("percent", "subset_idx", "subset_pct", "classwise_idx", "classwise_pct"):
             pg = list(partition_grid(kind, max_n if kind.startswith("classwise") else max_n + 1, den))
             if len(pg) > pcap:
@@ -573,8 +643,14 @@ def build_cases(tier, r):
                 cases.append(make_case(len(cases) + 1, kind, C, cls, evs, "partition", r, gseeds()))
         for i in range(n_rand):
             C, cls, a, rel = rand_case(r, kind, big=(i % 4 == 0))
-            cases.append(make_case(len(cases) + 1, kind, C, cls, a, rel, r, gseeds()))
+            cases.append(make_case(len(cases) + 1, kind, C, cls, a, rel, r, gseeds(), stack=0.4))
         stats["random"][kind] = n_rand
+        if kind in ("percent", "subset_pct", "classwise_pct"):
+            for i in range(n_inexact):
+                C, cls, evs = inexact_chain(r, kind)
+                cases.append(make_case(len(cases) + 1, kind, C, cls, evs, "partition", r, gseeds(), inexact=True,
+                                       stack=0.2))
+            stats["inexact_partition"][kind] = n_inexact
     return cases, stats
 
 
@@ -588,7 +664,8 @@ def to_trace(case, obs):
         ev = {k: a[k] for k in EV_FIELDS}
         ev.update(a=what, sel=[int(x) for x in sel])
         evs.append(ev)
-    return dict(id=case["id"], cfg=dict(kind=case["kind"], rel=case["rel"], n=case["n"], C=case["C"], cls=case["cls"]),
+    return dict(id=case["id"], cfg=dict(kind=case["kind"], rel=case["rel"], n=case["n"], C=case["C"], cls=case["cls"],
+                         inexact=bool(case.get("inexact"))),
                 ev=evs)
 
 
